@@ -6,6 +6,7 @@ func registerAll() {
 	registerWorld(histWorld{})
 	registerWorld(obsWorld{})
 	registerWorld(decWorld{})
+	registerWorld(regWorld{})
 
 	stubsEvid := []string{"FaultySigner (wrapper around the real go-cose signer)", "deterministic crypto.Signer wrapper over pool keys",
 		"sim extension profiles XP1/XP2 (thin structs over the real encoding helpers, fault switch)", "committed key pool"}
@@ -91,5 +92,23 @@ func registerAll() {
 		Assumptions: []string{"TotalAlloc is measured in a single-goroutine child; runtime noise of a few KiB cannot flip a verdict against a budget of >= 1 MiB",
 			"the statement budget is a deterministic stand-in for the property's 5 s wall deadline, set orders of magnitude above what a linear decoder needs"},
 		MustProbes: []string{"decoded_ok", "net.leninflate", "net.nest", "net.pad", "net.truncate", "max_steps_in_one_call"},
+	}
+
+	stubsReg := []string{"five sim profile kinds (extension over P1, over P2, own JSON profile member, no profile field, profile field without json tag)", "hook T3 (register snapshot/restore, injected into the scratch copy only)", "seam T1 (map iteration order chosen by the simulator)"}
+	regRule := "one run = the pristine register, a pool of 1..8 candidate profile names and a history of 1..40 operations {register (five profile kinds; new, duplicate and built-in names), re-register, NewClaims, dispatching decode of one of ~50 probe documents (both serialisations; every pool / built-in / unknown name under every profile member; no profile, null, non-string, both profiles' members), mutate-one-instance-read-the-other (two NewClaims results, two profiles, the same buffer decoded twice; 15 mutation kinds incl. writes through slices handed out by getters)}; every JSON dispatch is repeated under reverse and 2..10 permuted registry iteration orders; before and after EVERY registration attempt the whole probe set and NewClaims of every name are evaluated. "
+	props["C16"] = &propSpec{
+		ID: "C16", Worlds: []string{"W-REG"}, QuickRuns: 3000, ThoroughRuns: 300000, Isolated: true,
+		Rule: regRule + "non-trivial = at least one successful and one failed registration and one JSON dispatch evaluated under several orders with an extra profile registered; distinct = distinct hash of (operation kinds with outcomes, name pool)",
+		Real: commonReal, Stubs: stubsReg,
+		Assumptions: []string{"reference model of the register: name -> kind; a registration must succeed iff the name is new and the kind has an identifiable profile field",
+			"map iteration orders are sampled (reverse + permutations), not enumerated; the T1 rewrite is the only map range in the module (checked by go/types on every build)"},
+		MustProbes: []string{"independence_checked", "map_ranges_under_chosen_order", "map.order"},
+	}
+	props["C07"] = &propSpec{
+		ID: "C07", Worlds: []string{"W-REG"}, QuickRuns: 3000, ThoroughRuns: 300000, Isolated: true,
+		Rule: regRule + "For C07 each dispatch is compared with a reference dispatch over the model register (declared name -> registered kind; nothing declared -> profile 1; unregistered or non-string value -> error) and with decoding the same bytes straight into a fresh NewClaims(declared) instance and validating it. non-trivial = at least one accepted token whose reported profile was checked, with an extra profile registered; distinct as for C16",
+		Real: commonReal, Stubs: stubsReg,
+		Assumptions: []string{"documents the property leaves open (profile claim null in CBOR, both profiles' members, a registered name under another profile's member) get only the weak invariant: never decoded as a profile other than a declared one or the default"},
+		MustProbes: []string{"accepted_token_profile_checked", "dispatch_expect_error", "dispatch_expect_p1", "dispatch_expect_p2", "dispatch_expect_xp1", "dispatch_expect_xp2", "dispatch_expect_own", "dispatch_weak"},
 	}
 }
